@@ -29,6 +29,7 @@ from .astutil import dotted, unparse
 BOT = frozenset()
 NONE = ('none',)
 TOP = ('top',)
+DATA = ('data',)          # some value that is not callable and has no repository class (result of eval() on user text ...)
 EXT = ('ext',)            # value living in a trusted external library (logging, argparse ...): calls on it are not followed
 BOOL = ('bool',)
 BYTES = ('bytes',)
@@ -916,8 +917,9 @@ class Interp:
     def st_FunctionDef(self, fr, st, store, out):
         q = self.qual[id(st)]
         for d in st.decorator_list:
-            dn = dotted(d) or ''
-            if dn.split('.')[-1] not in ('abstractmethod', 'contextmanager', 'staticmethod', 'classmethod', 'property', 'wraps'):
+            dn = dotted(d) or (dotted(d.func) if isinstance(d, ast.Call) else None) or ''
+            # caching decorators do not change what a call returns or raises
+            if dn.split('.')[-1] not in ('abstractmethod', 'contextmanager', 'staticmethod', 'classmethod', 'property', 'lru_cache', 'cache'):
                 self.decor[q] = self.decor.get(q, set()) | {'<unknown>'}
         if fr is self.module or isinstance(fr.node, ast.ClassDef):
             atom = ('fn', q)
@@ -1283,6 +1285,8 @@ class Interp:
             if new.atom[2] is None:
                 continue
             for r in carried:
+                if new.atom[2] == ('caught', id(h)):
+                    continue
                 if new.atom[2] != r.atom[2] or r.atom[2] in ('*', '?'):
                     self.ev_relabel.setdefault((id(h), id(new.origin)), (fr.qual, h, new, r))
 
@@ -1670,7 +1674,9 @@ class Interp:
         if k == 'caught':
             out = BOT
             for rec in self.caught_tbl.get(a[1], []):
-                out = join(out, self.load_attr_atom(fr, rec.atom, attr, node))
+                v = self.load_attr_atom(fr, rec.atom, attr, node)
+                # the line of the error caught by this handler is that very line, however little is known about it
+                out = join(out, map_tags(v, lambda t, h=a[1]: ('caught', h)))
             return out
         if k == 'cls':
             cls = a[1]
@@ -1714,6 +1720,8 @@ class Interp:
             return av(EXT)
         if a == TOP:
             return av(TOP)
+        if a == DATA:
+            return BOT
         if k in ('fn', 'clo', 'lam', 'bound', 'partial'):
             if attr in ('__name__', '__qualname__'):
                 return av(STR_S)
@@ -2010,6 +2018,8 @@ class Interp:
         ka, kb = a[0], b[0]
         if a == TOP or b == TOP:
             return {TOP}
+        if a == DATA or b == DATA:
+            return {DATA}
         if is_int_atom(a) and is_int_atom(b):
             if isinstance(op, ast.Div):
                 return {FLOAT}
@@ -2629,7 +2639,7 @@ class Interp:
             if a[1] in ('int', 'bool') and c[1] in ('int', 'bool'):
                 return 't' if a[2] == c[2] else 'f'
             return 'f'
-        if a == TOP or a == EXT:
+        if a == TOP or a == EXT or a == DATA:
             return '?'
         if c[1] == 'str':
             return '?' if is_str_atom(a) else 'f'
@@ -2761,7 +2771,7 @@ class Interp:
 
     def atom_is_instance(self, a, names, exact=False):
         k = a[0]
-        if a == TOP or a == EXT:
+        if a == TOP or a == EXT or a == DATA:
             return '?'
         if k == 'obj':
             if exact:
@@ -3536,7 +3546,7 @@ class Interp:
                 out.add(INT_U if a[1] == 'u' else INT_S)
             elif is_int_atom(a) or a == FLOAT:
                 out.add(a if a[0] == 'int' else INT_S)
-            elif a == TOP:
+            elif a == TOP or a == DATA:
                 raises = True
                 out.add(INT_U)
             elif a == BYTES:
@@ -3557,7 +3567,7 @@ class Interp:
     def user_value(self, val):
         """may the value be an integer / text whose size or content the user controls"""
         for a in val:
-            if a in (INT_U, TOP, FLOAT) or a[0] in ('idx',) or a == ('int', 'fsize'):
+            if a in (INT_U, TOP, FLOAT, DATA) or a[0] in ('idx',) or a == ('int', 'fsize'):
                 return True
             if is_str_atom(a) or a[0] in ('obj', 'list', 'seq', 'toks', 'dict', 'kdict', 'bytes', 'none'):
                 return True
@@ -3676,7 +3686,7 @@ class Interp:
             rec = ExcRec(('obj', 'Exception', None), node, ((fr.qual, node),))
             self.ev_origin[id(node)] = (fr.qual, node, 'Exception')
             fr.pending.append(rec)
-            return av(INT_U, TOP)
+            return av(INT_U, DATA)
         if name in ('id', 'hash'):
             return av(INT_S)
         if name == 'input':
